@@ -3,11 +3,11 @@ import json, time
 import vlib, relayfam
 
 RULE = ("spec/Tunnel.tla keeps the tunnel's responder object explicit (header map carried from exchange to exchange unless FreshResponder); TLC "
-        "checks Isolated (every response is a function of its own request and the store) on all sequences of 12 exchange kinds up to length 4, and "
+        "checks Isolated (every response is a function of its own request and the store) on all sequences of 16 exchange kinds up to length 4, and "
         "shows the invariant violated for the one-responder-per-tunnel deviation (negative control). Every sequence of length 2 (quick) / 2..3 "
-        "(thorough) over the 12 kinds (GET sized/chunked/1 MiB/404/no-store, POST 201, HEAD of sized/chunked/error resources, satisfiable and unsatisfiable Range) is run on the "
+        "(thorough) over the 16 kinds (GET sized/chunked/1 MiB/404/no-store, POST 201, HEAD of sized/chunked/error resources, satisfiable and unsatisfiable Range) is run on the "
         "real proxy three ways -- one shared tunnel, one tunnel per exchange, plain HTTP -- and TunnelTrace judges every exchange: status, tracked "
-        "header names (none foreign, none missing), body identity, no unread bytes on the tunnel, and agreement of the three ways on every tracked "
+        "header names (none foreign, none missing), body identity, no unread bytes on the tunnel, and agreement of the ways on every tracked "
         "header value. distinct_nontrivial = sequences.")
 ASSUME = ["the origin ignores Range, so range answers are slices the proxy cuts from the stored body",
           "Content-Length vs chunked framing is the writer's choice; a wrong length shows as a wrong body, a failed read or left-over bytes",
